@@ -261,6 +261,26 @@ fn check_view(desc: &Value, exp: &Expect) -> Option<(String, String)> {
             }
         }
     }
+    // The view as a whole: its byte length is the logical table and nothing else, and the bytes it hands
+    // out in one piece (tobytes(), bytes(obj), numpy.frombuffer...) are its logical elements - nothing
+    // missing, no padding, look-ahead rows or foreign memory behind them.
+    let itemsize = desc["itemsize"].as_i64().unwrap_or(0);
+    let logical: i64 = shape.iter().product::<i64>() * itemsize;
+    if let Some(nbytes) = desc["nbytes"].as_i64() {
+        if nbytes != logical {
+            return bad("nbytes", format!("the view says it holds {} bytes but shape {:?} x itemsize {} is {} bytes", nbytes, shape, itemsize, logical));
+        }
+    }
+    let raw = &desc["raw"];
+    if let Some(e) = raw.get("exc").and_then(|e| e.as_str()) {
+        return bad("tobytes", format!("tobytes() of the view raised {} ({})", e, raw["msg"].as_str().unwrap_or("")));
+    }
+    if raw.get("same").and_then(|b| b.as_bool()) == Some(false) {
+        return bad(
+            "tobytes",
+            format!("tobytes() of the view returned {} bytes that are not the packing of its {} logical bytes (shape {:?})", raw["len"], raw["want"], shape),
+        );
+    }
     None
 }
 
@@ -592,12 +612,22 @@ impl PyViewSim {
                 if idx < 0 {
                     o.probe("negative-index-used");
                 }
-                let v = call_json(py, "do_index", (obj, idx));
+                // the integer arrives as an int, as an object implementing the index protocol (what numpy
+                // integers are), or - for 0 and 1 - as a bool (a subclass of int)
+                let kind = if (index / 5).rem_euclid(4) == 3 {
+                    o.probe("index-through-__index__");
+                    1
+                } else if (idx == 0 || idx == 1) && (index / 3).rem_euclid(5) == 0 {
+                    2
+                } else {
+                    0
+                };
+                let v = call_json(py, "do_index", (obj, idx, kind));
                 if let Some(viol) = exc_violation(&v, op, target_name(target)) {
                     return Some(viol);
                 }
                 let in_range = idx >= -li && idx < li;
-                let tags = format!("op=index,what={}", target_name(target));
+                let tags = format!("op=index,what={}{}", target_name(target), if kind == 1 { ",via=__index__" } else { "" });
                 if !in_range {
                     return match v.get("exc").and_then(|e| e.as_str()) {
                         Some("IndexError") => None,
@@ -1071,7 +1101,7 @@ impl Sim for PyViewSim {
     }
 
     fn rule(_prop: &str) -> String {
-        "Cases: histories of 6..24 operations on Python objects of the lightmotif module inside an embedded CPython: new sequence (EncodedSequence + stripe, lengths 0 / <32 / multiples of 32 / ~1000 / up to 1500, DNA and protein), new motif (create from 1..12 sequences, width 1 / 2..33 / 34..80), explicit ScoringMatrix(values, background=...) with backgrounds in eighths, reverse_complement() (before and after the score distribution was materialised), integer indexing also at -2**63, 2**63-1 and +-2**31 / 2**32, integer indexing aimed at 0, len-1, len, -1, -len, -len-1 and random in-range values on EncodedSequence / CountMatrix / WeightMatrix / ScoringMatrix / StripedScores, len(), memoryview export of EncodedSequence / StripedSequence / ScoringMatrix / StripedScores / ScoreDistribution, re-reading every earlier view, dropping views, calculate() and scan() (which add look-ahead rows to the striped sequence and may reallocate it behind a live view), copy(), drop + gc.collect(); under the system allocator, exact-align+poison (growth always moves, freed memory 0x5A) or guard pages (freed blocks unmapped). Oracle: Python sequence semantics of indexing, logical len, every view's ndim / format / shape and element-by-element contents equal to a logical-content model built on the Rust side from the same inputs - at export time and at every later read; only Exception subclasses raised, never PanicException. Distinct = distinct tuples (allocator policy, set of operation kinds, set of targets viewed or indexed). Non-trivial = every history (at least two objects are created and used).".to_string()
+        "Cases: histories of 6..24 operations on Python objects of the lightmotif module inside an embedded CPython: new sequence (EncodedSequence + stripe, lengths 0 / <32 / multiples of 32 / ~1000 / up to 1500, DNA and protein), new motif (create from 1..12 sequences, width 1 / 2..33 / 34..80), explicit ScoringMatrix(values, background=...) with backgrounds in eighths, reverse_complement() (before and after the score distribution was materialised), integer indexing also at -2**63, 2**63-1 and +-2**31 / 2**32, the integer given as an int, as an object implementing __index__ (one index in four) or as a bool, integer indexing aimed at 0, len-1, len, -1, -len, -len-1 and random in-range values on EncodedSequence / CountMatrix / WeightMatrix / ScoringMatrix / StripedScores, len(), memoryview export of EncodedSequence / StripedSequence / ScoringMatrix / StripedScores / ScoreDistribution, re-reading every earlier view, dropping views, calculate() and scan() (which add look-ahead rows to the striped sequence and may reallocate it behind a live view), copy(), drop + gc.collect(); under the system allocator, exact-align+poison (growth always moves, freed memory 0x5A) or guard pages (freed blocks unmapped). Oracle: Python sequence semantics of indexing, logical len, every view's ndim / format / shape and element-by-element contents equal to a logical-content model built on the Rust side from the same inputs, its nbytes equal to shape x itemsize and its tobytes() equal to the packing of exactly those elements (nothing missing, no look-ahead rows, padding or foreign memory behind them) - at export time and at every later read; only Exception subclasses raised, never PanicException. Distinct = distinct tuples (allocator policy, set of operation kinds, set of targets viewed or indexed). Non-trivial = every history (at least two objects are created and used).".to_string()
     }
 
     fn required_probes(_prop: &str, _tier: Tier) -> Vec<&'static str> {
